@@ -1470,7 +1470,7 @@ def c11(chk):
         chk.sample(dict(case=scen[0], impl=outs[0][:300], model=mouts[0]))
     # the deadline covers the whole call, also the wait for a stream: the callee allows B concurrent streams, B long calls
     # hold them all, and a further call with a deadline must fail at that deadline (not when a stream frees up)
-    scen2, metas2 = [], []
+    scen2, metas2, models2 = [], [], []
     for i in range(6 if quick else 60):
         rng = chk.rng
         B = rng.choice([1, 2, 4])
@@ -1485,11 +1485,19 @@ def c11(chk):
         cmds += ["join hold%d 600000" % k for k in range(B)] + ["rpc 0 1 id=after size=5"]
         scen2.append("simnet " + " ; ".join(cmds))
         metas2.append((B, E))
+        # Timeout.rpc_outcome_w: the call is made 50 ms after the holders, which keep the streams for 3000 ms + 2 delays
+        models2.append("trpcw none none %s %d %d %d %d" % (str(hv * MS).encode().hex(), (3000 + 2 - 50) * MS, 10 * MS, 1 * MS, 1 * MS))
     outs2, parsed2 = run_scenarios(chk, scen2, "fabric:deadline-waiting-for-a-stream")
-    for sc, res, (B, E) in zip(scen2, parsed2, metas2):
+    for sc, res, (B, E), mo in zip(scen2, parsed2, metas2, run_model(models2)):
         if res is None:
             continue
         chk.nontriv(sc)
+        late0 = [x for c, x in zip([c.strip() for c in sc[len("simnet "):].split(" ; ")][1:], res) if c.startswith("rpc 0 1 id=late")][0]
+        got = "callertimeout" if late0.startswith("err timeout") else "response" if late0.startswith("ok st=200") else "other:" + late0[:30]
+        el0 = int(fields(late0).get("t", "0")) / 1000.0
+        mk, mt = (mo.split() + ["0"])[:2]
+        if mk != "unspecified" and (got != mk or abs(el0 - int(mt) / 1e6) > 6):
+            chk.disagree(sc, "%s after %.1f ms" % (got, el0), "Timeout.rpc_outcome_w: %s after %.1f ms" % (mk, int(mt) / 1e6), "simnet/deadline-wait")
         cl = [c.strip() for c in sc[len("simnet "):].split(" ; ")][1:]
         late = [x for c, x in zip(cl, res) if c.startswith("rpc 0 1 id=late")][0]
         el_ms = int(fields(late).get("t", "0")) / 1000.0
